@@ -59,6 +59,9 @@ def canonicalize_url(
     if strip_fragment:
         fragment = None
 
+    # NOTE: unquoting first, "%2E%2E" is a dot segment too
+    path = safely_unquote_path(path)
+
     # Path normalization
     if path and path != "/":
         trailing_slash = path.endswith(("/", "/.", "/.."))
@@ -89,8 +92,6 @@ def canonicalize_url(
 
         if quoted:
             password = safely_quote(password, "/:@")
-
-    path = safely_unquote_path(path)
 
     if quoted:
         path = safely_quote(path)
